@@ -229,6 +229,8 @@ func checkC10(c *Ctx, r *Report) {
 	ruleHelperShape(c, r, "C10.a", helperShape{Fn: "(core/validators/diagnostics.EntityDiagnostic).Empty", AllowedCalls: []string{"builtin.len"}, MustFields: []string{"Diagnostics", "Children"},
 		Why: "an entity is empty only if it has neither own diagnostics nor children (a non-empty one is never dropped from the result)"})
 
+	ruleEarlyExitInventory(c, r, "C10.b", 8, "core/validators")
+	ruleNoCompaction(c, r, "C10.b", "core/validators")
 	// every element filter in these packages is a reviewed one
 	ruleSkipInventory(c, r, "C10.b", loadSkipTable(c.VerifDir), 5, "core/validators")
 }
